@@ -125,8 +125,13 @@ def fam_expr(index, depth=None):
         if rnd.random() < 0.5:
             g.names.append(name)  # favour reuse
     n_out = rnd.choice([1, 1, 2])
+    prev = None
     for i in range(n_out):
         e = g.sig(depth)
+        if prev is not None and rnd.random() < 0.4:
+            # reuse the previous output's computation on another channel
+            e = ["bin", rnd.choice(["+", "-", "*"]), ["proj", prev, "signal-Q"], g.leaf()]
+        prev = e
         # (cond : v) | "T" is miscompiled on the pinned tree (copy-count of the projected signal);
         # keep a few of those, project the rest through an addition-free path only when not a cond
         if rnd.random() < (0.1 if e[0] == "cond" else 0.7):
@@ -203,6 +208,35 @@ def fam_expr_fixed():
     add("int-left-cmp", [["sig", "o", ["proj", ["cmp", "!=", K(-2), A], "signal-X"]]])
     add("int-left-lt", [["sig", "o", ["proj", ["cmp", "<", K(5), A], "signal-X"]]])
     add("divmul", [["sig", "o", ["proj", ["bin", "*", ["bin", "/", A, B], B], "signal-X"]]])
+    # boolean algebra: every pairing of operand shapes under && / || (0/1-valued and not)
+    shapes = {
+        "cmp": ["cmp", ">", A, K(0)],
+        "cmp2": ["cmp", "<", B, K(9)],
+        "sum": ["bin", "+", ["cmp", ">", A, K(0)], ["cmp", ">", B, K(0)]],
+        "sum1": ["bin", "+", ["cmp", ">", A, K(0)], K(1)],
+        "diff": ["bin", "-", ["cmp", ">", A, K(0)], ["cmp", ">", B, K(0)]],
+        "prod": ["bin", "*", ["cmp", ">", A, K(0)], ["cmp", ">", B, K(0)]],
+        "plus0": ["bin", "+", ["cmp", ">", A, K(0)], K(0)],
+        "not": ["not", B],
+        "sig": B,
+        "neg": ["neg", ["cmp", ">", B, K(0)]],
+        "nested": ["or", ["cmp", ">", A, K(5)], ["cmp", "<", B, K(0)]],
+        "arith": ["bin", "-", A, K(3)],
+    }
+    for ln, le in shapes.items():
+        for rn, re_ in (("cmpc", ["cmp", ">", C, K(0)]), ("sum", shapes["sum"]), ("sig", C), ("not", ["not", C])):
+            for op in ("and", "or"):
+                add(f"bool-{op}-{ln}-{rn}", [["sig", "o", ["proj", [op, le, re_], "signal-X"]]])
+    for ln, le in shapes.items():
+        add(f"bool-not-{ln}", [["sig", "o", ["proj", ["not", le], "signal-X"]]])
+        add(f"bool-named-{ln}", [["sig", "m", le], ["sig", "o", ["proj", ["and", V("m"), ["cmp", ">", C, K(0)]], "signal-X"]]])
+    # the same computation wanted on different channels
+    add("dup-chan-1", [["sig", "p", ["bin", "*", A, B]], ["sig", "q", ["bin", "-", ["proj", ["bin", "*", A, B], "signal-D"], K(1)]]])
+    add("dup-chan-2", [["sig", "p", ["proj", A, "signal-C"]], ["sig", "q", ["proj", A, "signal-D"]]])
+    add("dup-chan-3", [["sig", "p", ["proj", A, "signal-C"]], ["sig", "q", ["bin", "+", A, K(0)]]])
+    add("dup-chan-4", [["sig", "p", ["bin", "/", ["bin", "*", A, B], K(2)]], ["sig", "q", ["proj", ["bin", "*", A, B], "signal-D"]], ["sig", "r", ["proj", ["bin", "*", A, B], "signal-E"]]])
+    add("dup-chan-5", [["sig", "p", ["proj", ["bin", "+", A, B], "signal-X"]], ["sig", "q", ["proj", ["bin", "+", ["proj", ["bin", "+", A, B], "signal-Y"], C], "signal-Z"]]])
+    add("dup-cmp-chan", [["sig", "p", ["proj", ["cmp", ">", A, B], "signal-X"]], ["sig", "q", ["proj", ["bin", "*", ["proj", ["cmp", ">", A, B], "signal-Y"], K(5)], "signal-Z"]]])
     add("alias", [["sig", "o", A]])
     add("const-out", [["sig", "o", ["lit", "signal-X", K(42)]]])
     return progs
@@ -503,7 +537,8 @@ def corpus_c04(tier):
 #  C05 set/reset latches
 # ======================================================================================
 
-L_INPUTS = [("t", "signal-T", 10007), ("u", "signal-U", 10009), ("v", "signal-V", 10037), ("s", "signal-S", 10039), ("r", "signal-R", 10061)]
+L_INPUTS = [("t", "signal-T", 10007), ("u", "signal-U", 10009), ("v", "signal-V", 10037), ("s", "signal-S", 10039), ("r", "signal-R", 10061),
+            ("cl", "signal-L", 10067), ("cl2", "signal-L", 10069)]  # cl/cl2: inputs that travel on the CELL's own signal type
 
 
 def _latch_prog(name, val, st, rs, order, ins, mtype="signal-L", bools=(), fam="latch"):
@@ -542,6 +577,14 @@ def fam_latch_fixed():
         progs.append(_latch_prog(f"qfixed-{order}-named-cmp", K(1), V("lo"), V("hi"), order, ["t"], fam="fixed"))
         progs[-1]["stmts"].insert(1, ["sig", "lo", ["cmp", "<", T, K(20)]])
         progs[-1]["stmts"].insert(2, ["sig", "hi", ["cmp", ">=", T, K(80)]])
+        CL, CL2 = V("cl"), V("cl2")
+        progs.append(_latch_prog(f"qfixed-{order}-reset-on-celltype", K(1), ["cmp", ">", T, K(5)], ["cmp", ">", CL, K(3)], order, ["t", "cl"], fam="fixed"))
+        progs.append(_latch_prog(f"qfixed-{order}-set-on-celltype", K(1), ["cmp", ">", CL, K(5)], ["cmp", ">", T, K(3)], order, ["t", "cl"], fam="fixed"))
+        progs.append(_latch_prog(f"qfixed-{order}-both-on-celltype", K(1), ["cmp", ">", CL, K(5)], ["cmp", ">", CL2, K(3)], order, ["cl", "cl2"], fam="fixed"))
+        progs.append(_latch_prog(f"qfixed-{order}-bool-reset-celltype", K(1), V("s"), CL, order, ["s", "cl"], bools=("s", "cl"), fam="fixed"))
+        progs.append(_latch_prog(f"qfixed-{order}-bool-both-celltype", K(1), CL, CL2, order, ["cl", "cl2"], bools=("cl", "cl2"), fam="fixed"))
+        progs.append(_latch_prog(f"qfixed-{order}-value-and-reset-celltype", CL2, ["cmp", ">", T, K(5)], ["cmp", ">", CL, K(3)], order, ["t", "cl", "cl2"], fam="fixed"))
+        progs.append(_latch_prog(f"qfixed-{order}-inl-on-celltype", K(1), ["cmp", "<", CL, K(20)], ["cmp", ">=", CL, K(80)], order, ["cl"], fam="fixed"))
         progs.append(_latch_prog(f"qfixed-{order}-item-type", K(1), ["cmp", "<", T, K(20)], ["cmp", ">=", T, K(80)], order, ["t"], mtype="iron-plate", fam="fixed"))
     return progs
 
@@ -554,14 +597,17 @@ def fam_latch(index):
     val = rnd.choice([K(1), K(1), K(rnd.choice([2, 5, 100, -1])), ["proj", V("v"), "signal-L"]])
     ins = []
     bools = ()
+    if rnd.random() < 0.35:  # let set and/or reset travel on the cell's own signal type
+        T = V("cl")
+        U = V("cl2") if rnd.random() < 0.5 else U
     if shape == "shared":
         st = ["cmp", rnd.choice(CMPS), T, K(rnd.choice([-5, 0, 10, 20, 50]))]
         rs = ["cmp", rnd.choice(CMPS), T, K(rnd.choice([0, 30, 50, 80, 100]))]
-        ins = ["t"]
+        ins = [T[1]]
     elif shape == "two":
         st = ["cmp", rnd.choice(CMPS), T, K(rnd.choice([0, 10, 50]))]
         rs = ["cmp", rnd.choice(CMPS), U, K(rnd.choice([0, 10, 50]))]
-        ins = ["t", "u"]
+        ins = [T[1], U[1]] if T[1] != U[1] else [T[1]]
     else:
         st, rs = V("s"), V("r")
         ins = ["s", "r"]
@@ -616,6 +662,31 @@ def fam_entity_fixed():
     for proto in ENABLE_PROTOS:
         progs.append(_ent_prog(f"efixed-{proto}-gt", [["place", "e0", proto, K(0), K(0), None], ["enable", "e0", ["cmp", ">", A, K(10)]]], fam="fixed"))
         progs.append(_ent_prog(f"efixed-{proto}-expr", [["place", "e0", proto, K(-4), K(2), None], ["enable", "e0", ["cmp", ">", ["bin", "+", A, B], K(10)]]], fam="fixed"))
+    # `cond : value` assigned to enable (value signal / positive / negative / zero constant)
+    for nm, val in (("sig", B), ("sigitem", C), ("k1", K(1)), ("k5", K(5)), ("kneg", K(-1)), ("k0", K(0)), ("expr", ["bin", "-", B, K(2)])):
+        progs.append(_ent_prog(f"efixed-cond-{nm}", [lamp(0), ["enable", "e0", ["cond", ["cmp", ">", A, K(3)], val]]], fam="fixed"))
+        progs.append(_ent_prog(f"efixed-cond-inserter-{nm}", [["place", "e0", "inserter", K(0), K(0), None], ["enable", "e0", ["cond", ["cmp", "<=", A, B], val]]], fam="fixed"))
+    # the constant of an (inlinable) comparison supplied in every syntactic form
+    chest0 = ["place", "ch", "steel-chest", K(0), K(3), None]
+    forms = {
+        "lit": ([], K(5)),
+        "intvar": ([["int", "lim", K(5)]], V("lim")),
+        "intvar-computed": ([["int", "lim", ["bin", "+", K(2), K(3)]]], V("lim")),
+        "intvar-chain": ([["int", "base", K(2)], ["int", "lim", ["bin", "+", ["bin", "*", V("base"), K(2)], K(1)]]], V("lim")),
+        "expr": ([], ["bin", "+", K(2), K(3)]),
+        "neg": ([["int", "lim", ["bin", "-", K(0), K(5)]]], V("lim")),
+    }
+    for fn, (pre, kexpr) in forms.items():
+        progs.append(_ent_prog(f"efixed-const-{fn}-gt", pre + [lamp(0), ["enable", "e0", ["cmp", ">", A, kexpr]]], fam="fixed"))
+        progs.append(_ent_prog(f"efixed-const-{fn}-any", pre + [chest0, ["bun", "co", ["out", "ch"]], lamp(0), ["enable", "e0", ["cmp", ">", ["any", V("co")], kexpr]]], fam="fixed"))
+        progs.append(_ent_prog(f"efixed-const-{fn}-all", pre + [chest0, ["bun", "co", ["out", "ch"]], lamp(0), ["enable", "e0", ["cmp", ">=", ["all", V("co")], kexpr]]], fam="fixed"))
+        itemb = ["bun", "ib", ["bundle", [C, V("p")]]]
+        pin = [("a", "signal-A", 10007), ("b", "signal-B", 10009), ("c", "iron-plate", 10037), ("p", "copper-plate", 10069)]
+        progs.append(_ent_prog(f"efixed-const-{fn}-any-gt-items", pre + [itemb, lamp(0), ["enable", "e0", ["cmp", ">", ["any", V("ib")], kexpr]]], fam="fixed", inputs=pin))
+        progs.append(_ent_prog(f"efixed-const-{fn}-all-ge-items", pre + [itemb, lamp(0), ["enable", "e0", ["cmp", ">=", ["all", V("ib")], kexpr]]], fam="fixed", inputs=pin))
+        progs.append(_ent_prog(f"efixed-const-{fn}-any-lt", pre + [["bun", "bb", ["bundle", [A, C]]], lamp(0), ["enable", "e0", ["cmp", "<", ["any", V("bb")], kexpr]]], fam="fixed"))
+    progs.append(_ent_prog("efixed-const-iter-any", [chest0, ["bun", "co", ["out", "ch"]], ["for", "i", ["range", 2, 5, None], [["place", "l", "small-lamp", V("i"), K(0), None], ["enable", "l", ["cmp", ">", ["any", V("co")], V("i")]]]]], fam="fixed"))
+    progs.append(_ent_prog("efixed-const-param-any", [chest0, ["bun", "co", ["out", "ch"]], ["func", "ctl", [["Entity", "e"], ["int", "k"]], [["enable", "e", ["cmp", ">", ["all", V("co")], V("k")]]], V("k")], lamp(0), ["int", "z", ["call", "ctl", [V("e0"), ["bin", "+", K(2), K(3)]]]]], fam="fixed"))
     # shared sources, several entities
     progs.append(_ent_prog("efixed-shared-decider", [["sig", "f", ["cmp", ">", A, K(10)]], lamp(0), lamp(1), ["enable", "e0", V("f")], ["enable", "e1", V("f")]], fam="fixed"))
     progs.append(_ent_prog("efixed-shared-decider-other-use", [["sig", "f", ["cmp", ">", A, K(10)]], lamp(0), ["enable", "e0", V("f")], ["sig", "o", ["proj", ["bin", "+", V("f"), B], "signal-X"]]], fam="fixed"))
@@ -663,6 +734,8 @@ def fam_entity(index):
             cond = shared
         elif kind == "inl":
             cond = ["cmp", rnd.choice(CMPS), g.leaf_sig(), K(rnd.choice(SMALL + [-2147483648, 2147483647]))]
+            if rnd.random() < 0.3:
+                cond = ["cond", cond, rnd.choice([g.leaf_sig(), K(rnd.choice([1, 2, -1, 0]))])]
         elif kind == "sig":
             cond = g.leaf_sig()
         else:
@@ -1061,3 +1134,83 @@ def fam_loop16(index):
 def corpus_c16(tier):
     n = 25 if tier == "quick" else 150
     return fam_loop16_fixed() + [fam_loop16(i) for i in range(n)]
+
+
+# ======================================================================================
+#  C17 library contracts and import graphs
+# ======================================================================================
+
+INTS17 = [0, 1, -1, 5, 31, 100, -100, 2147483647, -2147483648]
+
+
+def fam_lib():
+    X, Y = V("x"), V("y")
+    insx = [["input", "x", "signal-A", 10007]]
+    insxy = insx + [["input", "y", "signal-B", 10009]]
+    progs = []
+
+    def add(name, ins, call, imp="math.facto"):
+        stmts = [["import", imp]] + list(ins) + [["sig", "o", ["proj", call, "signal-X"]]]
+        progs.append({"id": f"lib-{name}", "family": "lib", "stmts": stmts, "kind": "stateless", "params": {"must_accept": True}})
+
+    add("abs", insx, ["call", "abs", [X]])
+    add("sign", insx, ["call", "sign", [X]])
+    add("min", insxy, ["call", "min", [X, Y]])
+    add("max", insxy, ["call", "max", [X, Y]])
+    add("min-same-type", insx + [["input", "y", "signal-A", 10009]], ["call", "min", [X, Y]])
+    add("min-expr", insxy, ["call", "min", [["bin", "+", X, K(1)], ["bin", "*", Y, K(2)]]])
+    for lo, hi in ((0, 10), (-5, 5), (-2147483648, 2147483647), (7, 7), (-100, -1), (0, 2147483647)):
+        add(f"clamp-{lo}-{hi}", insx, ["call", "clamp", [X, K(lo), K(hi)]])
+        add(f"between-{lo}-{hi}", insx, ["call", "between", [X, K(lo), K(hi)]])
+    for a, b in ((0, 100), (10, 20), (100, 0), (-50, 50), (0, 0), (5, 1000000), (-2147483648, 0)):
+        add(f"lerp-{a}-{b}", insx, ["call", "lerp", [K(a), K(b), X]])
+    for pos in (0, 1, 5, 16, 30, 31):
+        for fn in ("get_bit", "set_bit", "clear_bit", "toggle_bit"):
+            add(f"{fn}-{pos}", insx, ["call", fn, [X, K(pos)]])
+    add("div_floor", insxy, ["call", "div_floor", [X, Y]])
+    add("mod_positive", insxy, ["call", "mod_positive", [X, Y]])
+    add("abs-of-sign", insx, ["call", "abs", [["call", "sign", [X]]]])
+    add("max-of-min", insxy, ["call", "max", [["call", "min", [X, Y]], K(0)]])
+    add("abs-lib-path", insx, ["call", "abs", [X]], imp="lib/math.facto")
+    return progs
+
+
+def fam_imports():
+    """import graphs over generated files; reference = the pasted twin (functions defined once, in order)"""
+    X = V("x")
+    A, B = V("a"), V("b")
+    ins = [["input", "a", "signal-A", 10007], ["input", "b", "signal-B", 10009]]
+    F = lambda name, body, ret: ["func", name, [["Signal", "x"]], body, ret]  # noqa: E731
+    fa = F("fa", [], ["bin", "+", ["bin", "*", X, K(2)], K(1)])
+    fb = F("fb", [], ["bin", "-", X, K(7)])
+    fc = F("fc", [], ["bin", "*", X, X])
+    fa_b = F("fa", [], ["bin", "+", ["call", "fb", [X]], K(1)])
+    fb_c = F("fb", [], ["bin", "*", ["call", "fc", [X]], K(3)])
+    decoy_a = F("fa", [], ["bin", "+", X, K(1000)])
+    body = lambda calls: [["sig", f"o{i}", ["proj", c, OUT_SIGS[i]]] for i, c in enumerate(calls)]  # noqa: E731
+    cases = []
+
+    def add(name, files, main_imports, calls, twin_funcs, decoys=None):
+        main = [["import", p] for p in main_imports] + ins + body(calls)
+        twin = list(twin_funcs) + ins + body(calls)
+        cases.append({"id": f"imp-{name}", "family": "imports", "kind": "import", "files": files, "main": main, "stmts": twin, "params": {"decoys": decoys or {}}})
+
+    add("single", {"a.facto": [fa]}, ["a.facto"], [["call", "fa", [A]]], [fa])
+    add("no-suffix", {"a.facto": [fa]}, ["a"], [["call", "fa", [A]]], [fa])
+    add("two-files", {"a.facto": [fa], "b.facto": [fb]}, ["a.facto", "b.facto"], [["call", "fa", [A]], ["call", "fb", [B]]], [fa, fb])
+    add("chain", {"a.facto": [["import", "b.facto"], fa_b], "b.facto": [["import", "c.facto"], fb_c], "c.facto": [fc]}, ["a.facto"], [["call", "fa", [A]]], [fc, fb_c, fa_b])
+    add("diamond", {"a.facto": [["import", "c.facto"], F("fa", [], ["bin", "+", ["call", "fc", [X]], K(1)])], "b.facto": [["import", "c.facto"], F("fb", [], ["bin", "-", ["call", "fc", [X]], K(1)])], "c.facto": [fc]}, ["a.facto", "b.facto"],
+        [["call", "fa", [A]], ["call", "fb", [B]]], [fc, F("fa", [], ["bin", "+", ["call", "fc", [X]], K(1)]), F("fb", [], ["bin", "-", ["call", "fc", [X]], K(1)])])
+    add("twice", {"a.facto": [fa]}, ["a.facto", "a.facto"], [["call", "fa", [A]]], [fa])
+    add("cycle", {"a.facto": [["import", "b.facto"], fa], "b.facto": [["import", "a.facto"], fb]}, ["a.facto"], [["call", "fa", [A]], ["call", "fb", [B]]], [fb, fa])
+    add("self-cycle", {"a.facto": [["import", "a.facto"], fa]}, ["a.facto"], [["call", "fa", [A]]], [fa])
+    add("subdir", {"sub/a.facto": [["import", "b.facto"], fa_b], "sub/b.facto": [fb]}, ["sub/a.facto"], [["call", "fa", [A]]], [fb, fa_b])
+    add("subdir-up", {"sub/a.facto": [fa], "b.facto": [fb]}, ["sub/a.facto", "b.facto"], [["call", "fa", [A]], ["call", "fb", [B]]], [fa, fb])
+    add("decoy-in-cwd", {"a.facto": [fa]}, ["a.facto"], [["call", "fa", [A]]], [fa], decoys={"a.facto": [decoy_a]})
+    add("subdir-decoy", {"sub/a.facto": [["import", "b.facto"], fa_b], "sub/b.facto": [fb]}, ["sub/a.facto"], [["call", "fa", [A]]], [fb, fa_b], decoys={"b.facto": [F("fb", [], ["bin", "+", X, K(5000)])]})
+    add("with-lib", {"a.facto": [["import", "math.facto"], F("fa", [], ["bin", "+", ["call", "abs", [X]], K(1)])]}, ["a.facto"], [["call", "fa", [A]]], [["import", "math.facto"], F("fa", [], ["bin", "+", ["call", "abs", [X]], K(1)])])
+    return cases
+
+
+def corpus_c17(tier):
+    return fam_lib() + fam_imports()
